@@ -404,8 +404,12 @@ class Impl:
 
     def events(self, mapping: list[dict[str, Any]], docs: list[Any], per_line: bool, k: int, tail: str = "") -> Any:
         fm = {f["name"]: to_field_spec(f) for f in mapping}
-        d = os.path.join(self.tmp, f"c{k}")
-        os.mkdir(d)
+        # the folder is presented to the tool in the ways a user writes paths: absolute, with a trailing slash, relative
+        # to the working directory (through `..`), below a dot folder
+        how = k % 4
+        d = os.path.join(self.tmp, ".cache", f"c{k}") if how == 3 else os.path.join(self.tmp, f"c{k}")
+        os.makedirs(d)
+        shown = {0: d, 1: d + os.sep, 2: os.path.relpath(d), 3: d}[how]
         try:
             if per_line:
                 with open(os.path.join(d, "a.json"), "w") as f:
@@ -419,7 +423,7 @@ class Impl:
                     with open(os.path.join(d, f"f{i}.json"), "w") as f:
                         json.dump(doc, f, indent=2)
             try:
-                conf = self.cfg.JSONDataSourceConfig(dirpath=d, json_per_line=per_line,
+                conf = self.cfg.JSONDataSourceConfig(dirpath=shown, json_per_line=per_line,
                                                      field_mapping=self.cfg.OTelFieldMapping(**fm))
                 src = self.ds.JSONDataSource(conf)
                 src.file_list = sorted(src.file_list)
@@ -582,11 +586,14 @@ def replay(data: dict[str, Any]) -> int:
         recs = impl.records(case["mapping"], case["docs"])
         evs = impl.events(case["mapping"], case["docs"], case["per_line"], 0, case.get("tail", ""))
         # per-line files are written with non-ASCII characters escaped (even k) and raw (odd k): replay both
-        evs_raw = impl.events(case["mapping"], case["docs"], case["per_line"], 1, case.get("tail", ""))
         rc = 0
-        if evs_raw != evs:
-            print("events differ with the file written raw / escaped:", evs_raw, "\nvs:", evs)
-            rc = 1
+        # … and the folder is presented in four ways (absolute, trailing slash, relative through `..`, below a dot folder)
+        for kk in (1, 2, 3):
+            other = impl.events(case["mapping"], case["docs"], case["per_line"], kk, case.get("tail", ""))
+            if other != evs:
+                print(f"events differ with presentation {kk} (file raw/escaped, folder path written another way):", other,
+                      "\nvs:", evs)
+                rc = 1
         if isinstance(recs, list):
             for d, got in zip(case["docs"], recs):
                 want = ref_extract(case["mapping"], d)
